@@ -42,3 +42,8 @@ pub fn sizes(cap: usize) -> Vec<usize> {
     out.truncate(60);
     out
 }
+
+/// thresholds above the range of the ordinary width families (a `1 << 15`): only a few, cheap families use them
+pub fn big_sizes() -> Vec<usize> {
+    sizes(100_001).into_iter().filter(|n| *n > 2000).take(9).collect()
+}
